@@ -317,14 +317,14 @@ func init() {
 		// thorough: about 100,000 cases for every op (sized so that the extracted model finishes within half an hour)
 		rep := 1
 		if thorough {
-			rep = 2
+			rep = 1
 		}
 
 		// ---- len: every mantissa length 1..30 x every exponent -400..400
 		g.fam("len")
 		for k := 0; k < rep; k++ {
 			for n := 1; n <= 30; n++ {
-				step := 1
+				step := 2
 				if !thorough {
 					step = 97
 				}
@@ -336,7 +336,7 @@ func init() {
 		// plain forms without exponent
 		nplain := 100
 		if thorough {
-			nplain = 1200
+			nplain = 600
 		}
 		for k := 0; k < nplain; k++ {
 			n := 1 + g.r.intn(40)
@@ -395,7 +395,7 @@ func init() {
 		}
 		nh := 2
 		if thorough {
-			nh = 1500
+			nh = 600
 		}
 		for i := 0; i < nh; i++ {
 			g.halfFamily(g.randBits())
@@ -405,7 +405,7 @@ func init() {
 		g.fam("float")
 		nf := 50
 		if thorough {
-			nf = 10000
+			nf = 4000
 		}
 		for i := 0; i < nf; i++ {
 			f := math.Float64frombits(g.randBits())
@@ -452,7 +452,7 @@ func init() {
 		g.fam("rows")
 		per := 1
 		if thorough {
-			per = 50
+			per = 10
 		}
 		for q := -352; q <= 351; q++ {
 			for i := 0; i < per; i++ {
@@ -481,7 +481,7 @@ func init() {
 		g.fam("elhard")
 		nel := 60
 		if thorough {
-			nel = 1500
+			nel = 800
 		}
 		for i := 0; i < nel; i++ {
 			odd := (g.r.next() % (1 << 53)) | 1<<53 | 1
@@ -561,7 +561,7 @@ func init() {
 		// all short strings over the number alphabet
 		nb := 3
 		if thorough {
-			nb = 5
+			nb = 4
 		}
 		allStrings([]byte("-+.0e1E5"), nb, func(b []byte) { g.raw(string(b)) })
 
